@@ -23,6 +23,16 @@ def run(ctx):
     skippers.struct_loop(rep, 'R07.h', prog)
     skippers.struct_pairing(rep, 'R07.p', prog)
     skippers.shared_skipper_is_order_neutral(rep, 'R07.a', prog)
+    # what the default skipper adds up for container / field headers (*_len) is what the family's writers put there
+    import c04
+    for f_ in ('binary', 'binary_le'):
+        c04.fixed_family(rep, 'R07.l', prog, cg, f_)
+    # the async skipper advances through the async readers: they agree with the in-memory ones method by method
+    import thrift_pairs as tp_
+    for f_ in ('binary', 'binary_le', 'compact'):
+        fam_ = tp_.Fam(prog, cg, f_)
+        if tp_.anchors(rep, 'R07.s', fam_):
+            tp_.sync_async(rep, 'R07.s', fam_)
     skippers.binary_arm_reader_accepts_any_bytes(rep, 'R07.c', prog, cg)
     skippers.default_skipper_widths(rep, 'R07.a', prog, cg)
     skippers.depth_budget(rep, 'R07.e', prog, include_unsafe=True)
